@@ -516,6 +516,7 @@ func ruleC08R5(r *Run) {
 	// the skip: stores into the map happen only under Name != checkMethodName
 	n := 0
 	var theMap ssa.Value
+	var invInstall *ssa.MapUpdate
 	for _, b := range p.body(fn) {
 		for _, in := range b.Instrs {
 			mu, ok := in.(*ssa.MapUpdate)
@@ -524,6 +525,9 @@ func ruleC08R5(r *Run) {
 			}
 			theMap = mu.Map
 			if k, isC := constString(p.resolve(mu.Key)); isC {
+				if k == "" {
+					invInstall = mu
+				}
 				okInv := k == "" && strings.HasPrefix(p.expr(mu.Value), "bound:(StateMachine)."+mname+"($sm)")
 				r.Check("StateMachineActions#invariant", mu.Pos(), okInv, "sm."+mname+" is installed under \"\"", "the entry stored under a constant key is "+p.expr(mu.Value)+" under "+fmt.Sprintf("%q", k))
 				continue
@@ -550,6 +554,7 @@ func ruleC08R5(r *Run) {
 	r.Check("StateMachineActions#at-least-one", fn.Pos(), okAssert, "asserts that at least one action exists", "StateMachineActions no longer asserts len(actions) > 0")
 	for _, ret := range returnsOf(fn) {
 		r.Check("StateMachineActions#result", ret.Pos(), theMap != nil && p.resolve(p.res(ret, 0)) == p.resolve(theMap), "returns the map it filled", "returns another map")
+		r.Check("StateMachineActions#invariant-installed", ret.Pos(), invInstall != nil && dominates(invInstall, ret), "the invariant is installed under \"\" on every path to the return", "StateMachineActions can return without having installed sm."+mname+" under \"\": Repeat then runs the actions without ever checking the invariant")
 	}
 	// the TB adapter forwards its own T
 	if ad := p.Fn("StateMachineActions$1"); ad != nil {
